@@ -471,6 +471,24 @@ def _check_resync(repo, rule, fm, it):
         rule.ok({"function": rm.fi.qual, "evaluated": "3 server states x %d flag vectors" % len(it.universe)})
     else:
         rule.note("re-synchronisation function uses constructs the constant evaluator does not model; falling back to the abstract interpreter")
+    # the re-synchronisation runs on every successful connect, for every reported state (0 is falsy!)
+    lw = repo.func(F.CLI, "Service.load_websocket")
+    cfg = cfg_of(lw.node)
+    sync_nodes = {n.id for n in cfg.nodes if n.ast is not None and n.stmt is not None and any(
+        dotted(c.func) == "self." + RESYNC_FN for c in calls_in_order(n.stmt if n.kind != "test" else n.ast))}
+    conn = [n.id for n in cfg.nodes if n.kind == "stmt" and isinstance(n.stmt, ast.Assign) and any(unparse(t) == "self.websocket" for t in n.stmt.targets)
+            and not (isinstance(n.stmt.value, ast.Constant) and n.stmt.value.value is None)]
+    ok = bool(sync_nodes) and bool(conn) and all(cfg.must_pass(cn, sync_nodes) or cn in sync_nodes for cn in conn)
+    rule.require(ok, lw, "resync on every successful connect",
+                 "load_websocket can finish a successful connect without re-synchronising the upload flags from the server's state (e.g. skipped when the reported state is 0): "
+                 "stale upload flags then survive a server that lost or never had the service")
+    for n in sync_nodes:
+        for c in calls_in_order(cfg.nodes[n].stmt):
+            if dotted(c.func) == "self." + RESYNC_FN and c.args and isinstance(c.args[0], ast.Name):
+                defs = [st for st in ast.walk(lw.node) if isinstance(st, ast.Assign) and any(isinstance(t, ast.Name) and t.id == c.args[0].id for t in st.targets)]
+                src_ok = bool(defs) and all(isinstance(d.value, ast.Call) and isinstance(d.value.func, ast.Attribute) and d.value.func.attr == "get" and d.value.args and
+                                            isinstance(d.value.args[0], ast.Constant) and d.value.args[0].value == "state" for d in defs)
+                rule.require(src_ok, lw, "resync uses the reported state", "load_websocket re-synchronises with something other than the 'state' field of the init echo")
     return rm, understood
 
 
